@@ -128,7 +128,7 @@ KeepAux == UNCHANGED <<pend, rot, atag>>
 (* one slot per kind of operation in flight, so that operations of different kinds may overlap *)
 NoneP == [kind |-> "none"]
 NoPend == [reg |-> NoneP, auth |-> <<>>, stats |-> NoneP, batch |-> NoneP, authsrv |-> NoneP,
-           migrate |-> NoneP, crashed |-> NoneP, sync |-> NoneP, recent |-> NoneP]
+           migrate |-> NoneP, crashed |-> NoneP, sync |-> NoneP, recent |-> NoneP, credit |-> 0]
 
 -----------------------------------------------------------------------------
 TReset ==
@@ -231,14 +231,23 @@ TRotate ==
   /\ Len(atag') = Len(atag) + 1
   /\ rot' = "idle" /\ UNCHANGED pend
 
+(* The report handler runs for a datagram of exactly 80 bytes read from the socket (UDPRead with   *)
+(* n = 80) or handed over by the driver (Direct): pend.credit counts those not yet handled.  A      *)
+(* handler run without such a datagram (e.g. for a shorter one, padded) is no behaviour.            *)
+Pairing == "UDPPairing" \in Strict
 TRecvReport ==
   /\ Ev.a = "RecvReport"
   /\ (IsStrict => Ev.now = now)
   /\ Apply(RecvReport(UnDatagram(Ev.d)))
   /\ PostSane(Ev.post)
-  /\ KeepAux
+  /\ (Pairing => pend.credit > 0)
+  /\ pend' = [pend EXCEPT !.credit = IF @ > 0 THEN @ - 1 ELSE 0]
+  /\ UNCHANGED <<rot, atag>>
 
-TUDPRead == Ev.a \in {"UDPRead", "DriverNote"} /\ UNCHANGED vars /\ KeepAux
+TUDPRead ==
+  /\ Ev.a \in {"UDPRead", "DriverNote", "Direct"} /\ UNCHANGED vars
+  /\ pend' = [pend EXCEPT !.credit = IF Ev.a = "Direct" \/ (Ev.a = "UDPRead" /\ Ev.n = 80) THEN @ + 1 ELSE @]
+  /\ UNCHANGED <<rot, atag>>
 
 TRegister ==
   /\ Ev.a = "Register" /\ pend.batch.kind # "batch"
